@@ -377,3 +377,80 @@ def lossy_preallocation(ctx, rule, funcs, key):
                         bad.append(f"{fi.qualname}: `{U(st)[:60]}` after `{how}` casts {sorted(others)} to the element type of `{root}`")
     ctx.check(not bad and n >= 1, rule, key, f"{n} function(s): no input is stored into an array typed after another input",
               "; ".join(bad[:2]), funcs[0].where if funcs else "")
+
+
+# parameters that are unused on purpose (reason each); everything else that a function accepts by name must be read
+UNUSED_OK = {
+    ("binnings.numpy_binning", "kwargs"): "registered factories share one calling convention; extra options are ignored",
+    ("binnings.quantile_binning", "kwargs"): "same",
+    ("binnings.static_binning", "data"): "explicit bins do not depend on the data",
+    ("BinningBase.as_static", "copy"): "base implementation always converts (documented pylint waiver)",
+    ("BinningBase.as_fixed_width", "copy"): "same",
+    ("StaticBinning.__init__", "kwargs"): "swallows options meant for other binnings",
+    ("FixedWidthBinning.__init__", "kwargs"): "same",
+    ("FixedWidthBinning.is_regular", "kwargs"): "tolerances are meaningless for an exact grid",
+    ("ExponentialBinning.__init__", "kwargs"): "same as the other binnings",
+    ("ExponentialBinning.is_regular", "kwargs"): "never regular",
+    ("HistogramBase._update_dict", "a_dict"): "hook for subclasses, empty in the base",
+    ("plotting.matplotlib.pair_bars", "orientation"): "not implemented upstream",
+    ("plotting.matplotlib.pair_bars", "kind"): "not implemented upstream",
+}
+
+
+def params_used(ctx, rule, funcs, key):
+    """No option is silently dropped: every named parameter (and *args / **kwargs) of these functions is read somewhere in
+    the body.  Stubs (overloads, abstract methods, bodies that only raise) are skipped."""
+    bad = []
+    n = 0
+    for fi in funcs:
+        body = [b for b in fi.node.body if not (isinstance(b, ast.Expr) and isinstance(b.value, ast.Constant))]
+        if not body or all(isinstance(b, (ast.Raise, ast.Pass)) or (isinstance(b, ast.Expr) and isinstance(b.value, ast.Constant)) for b in body):
+            continue
+        if any(U(d).split(".")[-1] in ("abstractmethod", "overload") for d in fi.node.decorator_list):
+            continue
+        n += 1
+        a = fi.node.args
+        params = [x.arg for x in a.posonlyargs + a.args + a.kwonlyargs]
+        if a.vararg:
+            params.append(a.vararg.arg)
+        if a.kwarg:
+            params.append(a.kwarg.arg)
+        used = {x.id for x in ast.walk(fi.node) if isinstance(x, ast.Name) and isinstance(x.ctx, ast.Load)}
+        for p in params:
+            if p in ("self", "cls", "_") or p in used or (fi.qualname, p) in UNUSED_OK:
+                continue
+            bad.append(f"{fi.qualname}({p})")
+    ctx.check(not bad and n >= 1, rule, key, f"{n} functions: every accepted option is read",
+              f"parameters accepted but never read: {bad[:4]} - the caller's option is silently ignored", funcs[0].where if funcs else "")
+
+
+def wrapper_forwards(ctx, rule, fi, consumed=(), key=None):
+    """A method that wraps `super().<same name>(...)` hands every one of its own parameters on (by name or position),
+    except the ones it consumes itself."""
+    calls = [c for c in calls_in(fi.node) if isinstance(c.func, ast.Attribute) and c.func.attr == fi.name
+             and isinstance(c.func.value, ast.Call) and U(c.func.value.func) == "super"]
+    a = fi.node.args
+    params = [x.arg for x in a.posonlyargs + a.args + a.kwonlyargs if x.arg not in ("self", "cls") and x.arg not in consumed]
+    probs = []
+    if not calls:
+        probs.append("no super() call of the same method")
+    for c in calls:
+        passed = {U(x) for x in c.args} | {U(k.value) for k in c.keywords if k.arg}
+        stars = [U(k.value) for k in c.keywords if k.arg is None]
+        for p in params:
+            if p not in passed and not any(isinstance(x, ast.Name) and x.id == p for arg in list(c.args) + [k.value for k in c.keywords] for x in ast.walk(arg)):
+                probs.append(f"`{p}` is not handed to super().{fi.name}")
+        if a.kwarg and a.kwarg.arg not in stars:
+            probs.append(f"**{a.kwarg.arg} is not handed on")
+    ctx.check(not probs, rule, key or f"{fi.qualname}:forwards-all", f"{len(params)} parameter(s) forwarded to super().{fi.name}",
+              "; ".join(sorted(set(probs))[:3]), fi.where)
+
+
+def funcs_of(m, *module_shorts, only=None):
+    """All functions and methods defined in the given modules (short names such as `_facade`, `compat.pandas`)."""
+    out = []
+    for fi in m.all_funcs():
+        short = fi.module.short if hasattr(fi.module, "short") else str(fi.module)
+        if short in module_shorts and (only is None or fi.name in only or fi.qualname in only):
+            out.append(fi)
+    return out
